@@ -603,7 +603,7 @@ class Interp:
             if a == 'real': return X.fn('real', b)
             if a == 'imag': return X.fn('imag', b)
             if a in ('conjugate', 'conj'): return Builtin('conj_of:' + str(b.uid))
-        if isinstance(base, dict) and a in ('items', 'keys', 'values', 'get'):
+        if isinstance(base, dict) and a in ('items', 'keys', 'values', 'get', 'pop', 'update', 'setdefault', 'copy'):
             return ('dictmethod', base, a)
         if isinstance(base, list) and a in ('append',):
             return ('listmethod', base, a)
@@ -978,6 +978,13 @@ class Interp:
             if a == 'keys': return list(d.keys())
             if a == 'values': return list(d.values())
             if a == 'get': return d.get(args[0], args[1] if len(args) > 1 else None)
+            if a == 'pop':
+                if args[0] in d or len(args) > 1: return d.pop(*args)
+                raise RaiseSignal(e, f'KeyError({args[0]!r})')
+            if a == 'update':
+                d.update(*args, **kwargs); return None
+            if a == 'setdefault': return d.setdefault(*args)
+            if a == 'copy': return dict(d)
         if isinstance(f, tuple) and f and f[0] == 'listmethod':
             f[1].append(args[0]); return None
         if isinstance(f, tuple) and f and f[0] == 'lambda':
@@ -1110,11 +1117,11 @@ class Interp:
             return X.fn('abs', to_node(a))
         if nm == 'pow':
             return X.power(to_node(args[0]), to_node(args[1]))
-        if nm in ('max', 'min', 'fmax', 'fmin'):
+        if nm in ('max', 'min', 'fmax', 'fmin', 'maximum', 'minimum') and len(args) >= 2 and all(is_num(a) for a in args):
             cs = [concrete(a) for a in args]
             if all(c is not None for c in cs):
                 return (max if 'max' in nm else min)(cs)
-            return X.fn(nm.lstrip('f'), *[to_node(a) for a in args])
+            return X.fn('max' if 'max' in nm else 'min', *[to_node(a) for a in args])
         if nm == 'tgamma' or nm == 'gamma':
             return X.fn('gamma', to_node(args[0]))
         if nm in ('isnan', 'isinf', 'isfinite'):
